@@ -278,14 +278,18 @@ def drive_ans(cm, np, rng, n_events, out, rep):
                 ds, _ = family(mods, rng, fam, k); k = len(ds); bad = min(bad, k - 1)
             syms = [rng.choice(list(mods.support(x))) for x in ds]
             sup = list(mods.support(ds[bad])); syms[bad] = rng.choice([sup[-1] + 1, sup[0] - 1, sup[-1] + (1 << 24)])
+            before = coder.pos()
             try:
                 if fam is None: coder.encode_reverse(layout(np, rng, syms, np.int32), mods.build(ds[0]))
                 else: encode_family(coder.encode_reverse, cm, np, mods, fam, ds, syms)
                 rep.bad("encode_reverse(array) with impossible symbol %r at index %d of %d (%s) raised nothing" % (syms[bad], bad, k, fam or "iid"))
             except KeyError:
                 pass
+            # either the symbols processed before the impossible one are on the coder (what the library does: it stops at the error) or
+            # the call was atomic (nothing encoded); the specification accepts both, the observation decides
             done = [[mods.spec(ds[i]), syms[i]] for i in range(k - 1, bad, -1)]
-            for i in range(k - 1, bad, -1): stack.append((ds[i], syms[i]))
+            if coder.pos() != before or not done:
+                for i in range(k - 1, bad, -1): stack.append((ds[i], syms[i]))
             observe(coder, {"ev": "enc_partial", "items": done, "bad": [mods.spec(ds[bad]), syms[bad]]}); rep.cls("enc_array_with_impossible_symbol")
     f.close()
 
@@ -351,13 +355,15 @@ def drive_range(cm, np, rng, n_events, out, rep):
                         ds, _ = family(mods, rng, fam, k); k = len(ds); bad = min(bad, k - 1)
                     syms = [rng.choice(list(mods.support(x))) for x in ds]
                     sup = list(mods.support(ds[bad])); syms[bad] = rng.choice([sup[-1] + 1, sup[0] - 1, sup[-1] + (1 << 24)])
+                    before_pos = enc.pos()
                     try:
                         if fam is None: enc.encode(layout(np, rng, syms, np.int32), mods.build(ds[0]))
                         else: encode_family(enc.encode, cm, np, mods, fam, ds, syms)
                         rep.bad("encode(array) with impossible symbol %r at index %d of %d (%s) raised nothing" % (syms[bad], bad, k, fam or "iid"))
                     except KeyError:
                         pass
-                    for i in range(bad): msg.append((ds[i], syms[i]))
+                    if enc.pos() != before_pos or bad == 0:
+                        for i in range(bad): msg.append((ds[i], syms[i]))
                     observe(enc, {"ev": "enc_partial", "items": [[mods.spec(ds[i]), syms[i]] for i in range(bad)], "bad": [mods.spec(ds[bad]), syms[bad]]}); rep.cls("enc_array_with_impossible_symbol")
                     snaps.append((enc.pos(), len(msg)))
                 continue
